@@ -98,6 +98,18 @@ pub fn corpus(out: &mut Out, prop: &str) {
     run_scripted(out, prop, "setrange-empty-value", vec![
         sc(0, true, Command::SetRange(k("k"), 5, s(""))),
     ]);
+    run_scripted(out, prop, "hincrby-noncanonical", vec![
+        sc(0, true, Command::HSet(k("h"), vec![(s("f"), s("007"))])),
+        sc(0, true, Command::HIncrBy(k("h"), s("f"), 1)),
+    ]);
+    run_scripted(out, prop, "set-member-not-binary-safe", vec![
+        sc(0, true, Command::SAdd(k("s"), vec![SDS::new(vec![0xff])])),
+        sc(0, true, Command::SMembers(k("s"))),
+    ]);
+    run_scripted(out, prop, "hash-field-not-binary-safe", vec![
+        sc(0, true, Command::HSet(k("h"), vec![(SDS::new(vec![0xff]), s("v"))])),
+        sc(0, true, Command::HKeys(k("h"))),
+    ]);
     run_scripted(out, prop, "setrange-check-order", vec![
         sc(0, true, Command::RPush(k("l"), vec![s("a")])),
         sc(0, true, Command::SetRange(k("l"), 1 << 40, s("x"))),
@@ -113,19 +125,22 @@ pub fn run(a: &Args) {
     }
     out.extra.insert("families_covered".into(), serde_json::json!(FAMILIES));
     out.extra.insert("not_in_command_enum".into(), serde_json::json!(NOT_IN_ENUM));
-    out.finish("case = one sequence of 1..60 commands (strings, counters, keys, expiry, lists over 5 colliding keys; clock moved between commands by 0 / 1 ms / random / exactly-the-deadline / one-ms-before / one-after, through set_time or update_time_readonly) run on a fresh real CommandExecutor; after every command the reply and the whole visible keyspace are compared with the Lean reference model; distinct by the op text of the whole sequence; non-trivial iff at least one command changed the visible keyspace and at least one reply was neither an error nor nil/0/empty");
+    out.finish("case = one sequence of 1..60 commands (strings, counters, keys, expiry, lists, sets, hashes over 5 colliding keys; clock moved between commands by 0 / 1 ms / random / exactly-the-deadline / one-ms-before / one-after, through set_time or update_time_readonly) run on a fresh real CommandExecutor; after every command the reply and the whole visible keyspace are compared with the Lean reference model; distinct by the op text of the whole sequence; non-trivial iff at least one command changed the visible keyspace and at least one reply was neither an error nor nil/0/empty");
 }
 
-pub const FAMILIES: [&str; 5] = [
+pub const FAMILIES: [&str; 7] = [
     "strings: GET SET(NX XX GET KEEPTTL EX PX EXAT PXAT) SETNX SETEX(=SET EX) APPEND GETSET STRLEN MGET MSET MSETNX GETRANGE SETRANGE GETEX GETDEL",
     "counters: INCR DECR INCRBY DECRBY",
     "keys: DEL EXISTS TYPE KEYS(*) DBSIZE FLUSHDB FLUSHALL RANDOMKEY RENAME RENAMENX",
     "expiry: EXPIRE PEXPIRE (NX XX GT LT) EXPIREAT PEXPIREAT TTL PTTL EXPIRETIME PEXPIRETIME PERSIST",
     "lists: LPUSH RPUSH LPOP RPOP LLEN LINDEX LRANGE LSET LTRIM RPOPLPUSH LMOVE",
+    "sets: SADD SREM SMEMBERS SISMEMBER SCARD SPOP [count] (SPOP validated as a relation)",
+    "hashes: HSET HGET HDEL HGETALL HKEYS HVALS HLEN HEXISTS HINCRBY",
 ];
-pub const NOT_IN_ENUM: [&str; 4] = [
+pub const NOT_IN_ENUM: [&str; 5] = [
     "PSETEX (no Command variant; SETEX is parsed into SET EX)",
     "EXPIREAT/PEXPIREAT NX|XX|GT|LT (variants carry no flags)",
     "KEYS with a pattern other than * (glob matching not modelled)",
+    "SRANDMEMBER SUNION SINTER SDIFF SMOVE …, HMGET HSETNX HINCRBYFLOAT HSTRLEN … (no Command variant)",
     "LREM LINSERT LPUSHX RPUSHX LPOP/RPOP with count, LPOS, BLPOP … (no Command variant)",
 ];
